@@ -32,8 +32,50 @@ def reference(f, F, fc, band):
     return np.array(out), M
 
 
+def replay_object(info, ce):
+    """the object's smoothed spectrum against the loop-based reference for the band and targets of the LAST request"""
+    import eqsig
+    how, pre = info.get('how', 'lazy'), info.get('pre', 'fresh')
+    cls = getattr(eqsig, info.get('cls', 'Signal'))
+    rng = np.random.RandomState(21)
+    t = np.arange(400) * 0.01
+    recs = [rng.randn(400), np.sin(2 * np.pi * 1.6 * t) * 0.2 + np.exp(-((t - 2.0) / 0.1) ** 2) * np.sin(2 * np.pi * 2.1 * t) * 3]
+    for x in recs:
+        for band in (5.0, 12.5, 40.0, 100.0):
+            for band0 in ((100.0, 5.0) if pre != 'fresh' else (None,)):
+                if band0 == band:
+                    continue
+                s = cls(x.copy(), 0.01)
+                hist = []
+                if band0 is not None:
+                    s.gen_smooth_fa_spectrum(band=band0)
+                    hist.append('gen_smooth_fa_spectrum(band=%g)' % band0)
+                targets = None
+                if how == 'gen(band)':
+                    s.gen_smooth_fa_spectrum(band=band)
+                    hist.append('gen_smooth_fa_spectrum(band=%g)' % band)
+                elif how == 'generate(band)':
+                    s.generate_smooth_fa_spectrum(band=band)
+                    hist.append('generate_smooth_fa_spectrum(band=%g)' % band)
+                elif how == 'gen(targets, band)':
+                    targets = np.array([0.5, 1.7, 4.0, 9.0])
+                    s.gen_smooth_fa_spectrum(smooth_fa_freqs=targets, band=band)
+                    hist.append('gen_smooth_fa_spectrum(smooth_fa_freqs=[0.5, 1.7, 4, 9], band=%g)' % band)
+                else:
+                    band = 40.0
+                got = np.asarray(s.smooth_fa_spectrum)
+                hist.append('read smooth_fa_spectrum')
+                want, _ = reference(np.asarray(s.fa_frequencies), np.asarray(s.fa_spectrum), np.asarray(s.smooth_fa_freqs), band)
+                if got.shape != want.shape or not np.all(np.isfinite(got)) or np.max(np.abs(got - want)) > 1e-9 * max(1.0, float(np.max(np.abs(want)))):
+                    return dict(status='confirmed', observed={'max_rel_error': float(np.max(np.abs(got - want) / np.maximum(np.abs(want), 1e-300))) if got.shape == want.shape else 'shape'},
+                                detail='the object\'s smoothed spectrum is not the Konno-Ohmachi window for the requested band %g' % band, input={'values': x.tolist(), 'dt': 0.01, 'history': hist})
+    return dict(status='not-reproduced', detail='object-level smoothed spectrum equals the reference for the requested band on the battery')
+
+
 def replay(info, ce):
     from eqsig.fns import frequency as fr
+    if info.get('op') == 'object':
+        return replay_object(info, ce)
     fn, zero_bin, targets = info.get('fn', 'calc'), info.get('zero_bin', False), info.get('targets', 'given')
     cases = []
     inp = (ce or {}).get('inputs', {})
